@@ -427,7 +427,16 @@ func (w *World) verifyBound(f *FilterRT, sid, tok string, login bool, binding ..
 	}
 	// "under the filter's configured key set": the provider's own key that made the signature must be one the filter
 	// can know (statically configured; or published, and when it no longer is, not after every fetch interval has passed)
-	if len(binding) > 0 && binding[0] && it.Key != nil && w.keyKnowledge(f, it.Key) == "unknown-key" {
+	// (the signer is found from the signature itself, not from the ledger: an honest token of an earlier grant that the
+	// provider hands out again was made with the key of its time)
+	var signer *SignKey
+	for _, k := range f.IdP.Keys {
+		if _, err := VerifyJWT(tok, []*SignKey{k}); err == nil {
+			signer = k
+			break
+		}
+	}
+	if len(binding) > 0 && binding[0] && signer != nil && w.keyKnowledge(f, signer) == "unknown-key" {
 		w.probe("bound-token-judged-against-the-knowable-key-set:unknown")
 		return "signature-key: made with a key of the provider that is not in the filter's key set (retired or never published)"
 	}
